@@ -173,6 +173,14 @@ inline Ledger & ledger()
 	return l;
 }
 
+// optional observer of destructions (used by the concurrent harness to attribute discarded events to clearEvents)
+using DtorHook = void (*)(int id);
+inline DtorHook & dtorHook()
+{
+	static DtorHook h = nullptr;
+	return h;
+}
+
 // Id spaces
 enum { kCbBase = 1000000, kPayloadBase = 2000000, kKeyBase = 3000000, kAuxBase = 4000000 };
 
@@ -218,6 +226,7 @@ public:
 			ledger().flagExternal("destructor on bytes that are not a constructed object");
 		}
 		ledger().onDtor(this, id);
+		if(dtorHook()) dtorHook()(id);
 		magic = 0xdeaddeadu;
 	}
 
